@@ -13,7 +13,7 @@ import (
 )
 
 // crashRec: recursion over possibly cyclic schema/document graphs must make progress.
-func crashRec(r *core.Report, cs *crashScope, extra func(site ssa.CallInstruction, callee *ssa.Function) string) {
+func crashRec(r *core.Report, cs *crashScope, extra func(site ssa.CallInstruction, callee *ssa.Function) string, cyclic func(t types.Type) bool) {
 	p := r.Prog
 	r.RunRule(cs.id+".rec", "recursion makes progress: for every call edge inside a cycle of the call graph (reachable repo functions) whose callee takes a *Schema/*SchemaRef (a possibly cyclic graph — document validation accepts recursive schemas), either an instance argument (the value, string or map being traversed) is a strict sub-component of the caller's (element of a range, index, map lookup, slice, struct field of an element), or the call is dominated by a visited-set/stack/depth test; an edge that re-passes the same instance with a sub-schema and no guard recurses forever on a cyclic schema", 3, func() {
 		cg := p.CallGraph()
@@ -81,6 +81,9 @@ func crashRec(r *core.Report, cs *crashScope, extra func(site ssa.CallInstructio
 		}
 		var isSchemaPtr func(t types.Type) bool
 		isSchemaPtr = func(t types.Type) bool {
+			if cyclic != nil {
+				return cyclic(t)
+			}
 			if sl, ok := t.(*types.Slice); ok {
 				return isSchemaPtr(sl.Elem())
 			}
@@ -102,8 +105,12 @@ func crashRec(r *core.Report, cs *crashScope, extra func(site ssa.CallInstructio
 		type edge struct {
 			key, pos, detail string
 			ok               bool
+			f, g             *ssa.Function
 		}
 		var edges []edge
+		type pair struct{ f, g *ssa.Function }
+		open := map[pair]bool{}  // the pair has a call that is not guarded (skipped helper call or bad edge)
+		inSCC := map[pair]bool{} // call pairs inside a cycle
 		for _, f := range cs.funcs {
 			n := cg.Nodes[f]
 			if n == nil {
@@ -111,7 +118,7 @@ func crashRec(r *core.Report, cs *crashScope, extra func(site ssa.CallInstructio
 			}
 			for _, e := range n.Out {
 				g := e.Callee.Func
-				if os.Getenv("KINLINT_DEBUG") != "" && strings.Contains(f.Name(), "decodeSchemaConstructs") {
+				if os.Getenv("KINLINT_DEBUG") != "" && (strings.Contains(f.Name(), "decodeSchemaConstructs") || strings.Contains(f.String(), "Operation).Validate")) {
 					fmt.Println("EDGE", f.Name(), "->", g.Name(), cs.reach[g], comp[f], comp[g], e.Site != nil, size[comp[f]])
 				}
 				if !cs.reach[g] || comp[f] != comp[g] || e.Site == nil {
@@ -123,6 +130,7 @@ func crashRec(r *core.Report, cs *crashScope, extra func(site ssa.CallInstructio
 				if f != g && size[comp[f]] < 2 {
 					continue
 				}
+				inSCC[pair{f, g}] = true
 				// callee takes a schema?
 				takes := false
 				for _, prm := range g.Params {
@@ -131,6 +139,9 @@ func crashRec(r *core.Report, cs *crashScope, extra func(site ssa.CallInstructio
 					}
 				}
 				if !takes {
+					if guardedByVisited(e.Site) == "" {
+						open[pair{f, g}] = true
+					}
 					continue
 				}
 				// which schema field does the schema argument come from (for the key)
@@ -162,7 +173,13 @@ func crashRec(r *core.Report, cs *crashScope, extra func(site ssa.CallInstructio
 				}
 				// helper calls that pass the caller's own schema on (no descent), and list elements of a
 				// schema-list parameter (the descent is the edge that passed the list), are not descents
+				if os.Getenv("KINLINT_DEBUG") != "" && strings.Contains(f.String(), "Operation).Validate") {
+					fmt.Println("FIELD", shortFn(f), "->", shortFn(g), "field=", field, "progress=", progress)
+				}
 				if field == "" || strings.HasPrefix(field, "param:") {
+					if guardedByVisited(e.Site) == "" {
+						open[pair{f, g}] = true
+					}
 					continue
 				}
 				key := fmt.Sprintf("rec:%s->%s(%s)", shortFn(f), shortFn(g), field)
@@ -185,10 +202,46 @@ func crashRec(r *core.Report, cs *crashScope, extra func(site ssa.CallInstructio
 					progress = extra(e.Site, g)
 				}
 				if progress != "" {
-					edges = append(edges, edge{key, p.Pos(e.Site.Pos()), progress, true})
+					edges = append(edges, edge{key, p.Pos(e.Site.Pos()), progress, true, f, g})
 				} else {
-					edges = append(edges, edge{key, p.Pos(e.Site.Pos()), "recursive call re-passes the same instance with a sub-schema and no visited/depth guard: a schema that reaches itself through `" + field + "` (accepted by document validation) recurses until the stack overflows", false})
+					open[pair{f, g}] = true
+					edges = append(edges, edge{key, p.Pos(e.Site.Pos()), "recursive call re-passes the same instance with a sub-schema and no visited/depth guard: a schema that reaches itself through `" + field + "` (accepted by document validation) recurses until the stack overflows", false, f, g})
 				}
+			}
+		}
+		// an unguarded descent is harmless when every cycle through it passes a guarded call: look for a
+		// way back from the callee to the caller over call pairs that still have an unguarded call
+		for i := range edges {
+			e := &edges[i]
+			if e.ok {
+				continue
+			}
+			seenF := map[*ssa.Function]bool{e.g: true}
+			work := []*ssa.Function{e.g}
+			back := e.g == e.f
+			for len(work) > 0 && !back {
+				x := work[0]
+				work = work[1:]
+				if n := cg.Nodes[x]; n != nil {
+					for _, oe := range n.Out {
+						y := oe.Callee.Func
+						if !inSCC[pair{x, y}] || !open[pair{x, y}] {
+							continue
+						}
+						if y == e.f {
+							back = true
+							break
+						}
+						if !seenF[y] {
+							seenF[y] = true
+							work = append(work, y)
+						}
+					}
+				}
+			}
+			if !back {
+				e.ok = true
+				e.detail = "no guard at this call, but every call cycle through it passes a call that is guarded (visited set, resolved-or-in-progress test, or progress on the instance)"
 			}
 		}
 		sort.Slice(edges, func(i, j int) bool { return edges[i].key < edges[j].key })
@@ -410,8 +463,8 @@ func guardedByVisited(site ssa.CallInstruction) string {
 			if !(s.Dominates(blk) || s == blk) {
 				continue
 			}
-			if reaches(other, blk) {
-				continue
+			if reachesAvoiding(other, blk, b) {
+				continue // the call is reached again without another test (not a `continue` to the next element)
 			}
 			// the condition depends on a map lookup / visited call / pointer equality scan
 			if w := visitedCond(ifi.Cond, 0); w != "" {
@@ -420,6 +473,29 @@ func guardedByVisited(site ssa.CallInstruction) string {
 		}
 	}
 	return ""
+}
+
+// reachesAvoiding: is there a path from a to b that does not pass through avoid?
+func reachesAvoiding(a, b, avoid *ssa.BasicBlock) bool {
+	if a == avoid {
+		return false
+	}
+	seen := map[*ssa.BasicBlock]bool{a: true}
+	work := []*ssa.BasicBlock{a}
+	for len(work) > 0 {
+		x := work[0]
+		work = work[1:]
+		if x == b {
+			return true
+		}
+		for _, s := range x.Succs {
+			if s != avoid && !seen[s] {
+				seen[s] = true
+				work = append(work, s)
+			}
+		}
+	}
+	return false
 }
 
 func visitedCond(v ssa.Value, depth int) string {
